@@ -100,10 +100,28 @@ class C08World(C01World):
                                      "lock_owner_at_commit_point": owner, "my_lock_id": self.lock_ids.get(a),
                                      "previous_request": self.last_req.get(req.actor)})
             if "." not in req.actor:
-                self.last_req[req.actor] = req.label()
+                self.last_req[req.actor] = req.label() + (" FAILED" if isinstance(res, BaseException) else "")
 
         fake.gates.append(gate)  # runs after the scheduler's gate, i.e. immediately before the effect
         fake.after.append(after)
+        # deviation "partition": from some point on every request of one committer (and its heartbeat) to the LOCK
+        # object fails with a transient 503 - renewals and the fence read included
+        self.partitioned: set = set()
+        self.max_partitions = cfg.get("max_partitions", 0)
+        lock_key = f"{self.location}/.locks/metadata.lock"
+
+        def partition_gate(req):
+            if req.key == lock_key and root_actor(req.actor) in self.partitioned:
+                from botocore.exceptions import ClientError
+
+                self.last_req[req.actor] = req.label() + " FAILED"
+                raise ClientError({"Error": {"Code": "SlowDown", "Message": "partition"},
+                                   "ResponseMetadata": {"HTTPStatusCode": 503}}, req.op)
+
+        fake.gates.append(partition_gate)
+        if cfg.get("init") == "pointer_lost":
+            # the table's pointer object is missing (versions are recovered by scanning) when the committers start
+            self._template_state.pop(f"{self.location}/{HINT_NAME}", None)
 
     def close(self) -> None:
         import datashard.metadata_manager as mm
@@ -121,6 +139,7 @@ class C08World(C01World):
         self._prev = {}
         self.last_req = {}
         self.lock_ids = {}
+        self.partitioned = set()
         if self.lock_variant == "cas":
             for i in range(len(self.ops)):
                 lp = self.handle(i).metadata_manager.lock_provider
@@ -132,6 +151,10 @@ class C08World(C01World):
         for a in ex.actors:
             if "." in a.name:
                 continue
+            if (self.max_partitions and len(self.partitioned) < self.max_partitions and a.name not in self.partitioned
+                    and a.state != DONE and (not self.cfg.get("pause_only") or a.name in self.cfg["pause_only"])
+                    and self.lock_variant == "cas" and self._holds_lock(a.name)):
+                opts.append(("partition-from-lock", a.name))
             if a.frozen:
                 opts.append(("resume", a.name))
             elif a.state != DONE and ex.jumps < self.max_pauses and a.steps > 0 and \
@@ -148,6 +171,9 @@ class C08World(C01World):
 
     def apply_extra(self, ex: Execution, opt: Tuple) -> None:
         kind, name = opt
+        if kind == "partition-from-lock":
+            self.partitioned.add(name)
+            return
         for a in ex.actors:
             if root_actor(a.name) == name:
                 a.frozen = (kind != "resume")
@@ -169,7 +195,7 @@ class C08World(C01World):
                 # the lock was lost before the commit point: acknowledging is tolerable only if the committer's last
                 # request before the pointer write was its ownership read (the loss then happened after the fence)
                 prev = c.get("previous_request") or ""
-                if not (prev.startswith("GET") and prev.endswith("metadata.lock")):
+                if not (prev.startswith("GET") and prev.endswith("metadata.lock")):  # a FAILED read proves nothing
                     problems.append(f"{c['actor']} advanced the pointer after losing its lock without re-checking ownership "
                                     f"before the commit point")
         for a in ex.actors:
@@ -177,7 +203,10 @@ class C08World(C01World):
                 continue
             kind, val = outcome_of(a)
             if kind == "raise" and val not in ("ConcurrentModificationException", "TimeoutError"):
-                problems.append(f"{a.name} ended with {val} (neither success nor a retryable conflict)")
+                if a.name in self.partitioned and val == "ClientError":
+                    self.rep.add("commits_failed_by_the_injected_partition")  # the storage error itself surfaced: legitimate
+                else:
+                    problems.append(f"{a.name} ended with {val} (neither success nor a retryable conflict)")
         if ex.jumps:
             self.rep.add("executions_with_lease_lapse")
         if any(c for c in ex.trace if "PUT[IfMatch]" in c and "metadata.lock" in c):
@@ -203,7 +232,7 @@ def run_config(cfg: Dict[str, Any]) -> Dict[str, Any]:
     try:
         exp = Explorer(w, bound=cfg.get("bound"), seed=cfg["seed"], clock_mode="TICK", horizon=4000,
                        max_jumps=cfg.get("max_jumps", 0), jump_amounts=[LEASE_JUMP] if cfg.get("max_jumps") else [],
-                       has_extra=bool(cfg.get("max_pauses")), max_exec=cfg.get("max_exec"))
+                       has_extra=bool(cfg.get("max_pauses") or cfg.get("max_partitions")), max_exec=cfg.get("max_exec"))
         exp.on_complete = w.check
         stats = exp.explore()
         exp.visited.clear()
@@ -229,17 +258,27 @@ def run_config(cfg: Dict[str, Any]) -> Dict[str, Any]:
 def configs(tier: str, seed: int) -> List[Dict[str, Any]]:
     out = []
 
-    def add(ops, lock, bound=None, max_jumps=0, max_pauses=0, sample=False, max_exec=None, pause_only=None):
+    def add(ops, lock, bound=None, max_jumps=0, max_pauses=0, sample=False, max_exec=None, pause_only=None,
+            max_partitions=0, init=None):
         cid = f"{lock}/{'+'.join(ops)}/jumps{max_jumps}/pauses{max_pauses}" + (f"/b{bound}" if bound is not None else "") \
-            + (f"/pause-only-{'+'.join(pause_only)}" if pause_only else "")
+            + (f"/pause-only-{'+'.join(pause_only)}" if pause_only else "") \
+            + (f"/partitions{max_partitions}" if max_partitions else "") + (f"/{init}" if init else "")
         out.append({"id": cid, "backend": "s3", "topology": "separate", "clock": "TICK", "ops": list(ops), "lock": lock,
                     "bound": bound, "max_jumps": max_jumps, "max_pauses": max_pauses, "tier": tier, "seed": seed,
-                    "sample": sample, "max_exec": max_exec, "pause_only": pause_only})
+                    "sample": sample, "max_exec": max_exec, "pause_only": pause_only, "max_partitions": max_partitions,
+                    "init": init})
 
     pairs = [("append", "append"), ("append", "expire"), ("append", "delete_snap_first")]
     for lock in ("cas", "grantall"):
         for p in pairs:
             add(p, lock, sample=(lock == "cas" and p == pairs[0]))
+    # the pointer object is missing when the committers start (create-if-absent is the commit point)
+    add(("append", "append"), "grantall", init="pointer_lost", bound=2 if tier == "quick" else 3)
+    add(("append", "append"), "cas", init="pointer_lost", bound=2 if tier == "quick" else 3)
+    if tier != "quick":
+        add(("append", "append"), "cas", bound=1, max_pauses=1, pause_only=["A"], init="pointer_lost")
+        # the committer is cut off from the lock object (renewals and fence reads fail) while its lease lapses
+        add(("append", "append"), "cas", bound=1, max_pauses=1, max_partitions=1, pause_only=["A"])
     if tier == "quick":
         add(("append", "append"), "cas", bound=1, max_pauses=1, pause_only=["A"])  # symmetric actors: pausing A suffices
         add(("append", "expire"), "cas", bound=0, max_pauses=1)
@@ -282,7 +321,8 @@ def replay(case: Dict[str, Any]) -> Dict[str, Any]:
     w = C08World(tuple(cfg["ops"]), cfg["lock"], rep, cfg)
     try:
         exp = Explorer(w, seed=cfg["seed"], clock_mode="TICK", max_jumps=cfg.get("max_jumps", 0),
-                       jump_amounts=[LEASE_JUMP] if cfg.get("max_jumps") else [], has_extra=bool(cfg.get("max_pauses")))
+                       jump_amounts=[LEASE_JUMP] if cfg.get("max_jumps") else [],
+                       has_extra=bool(cfg.get("max_pauses") or cfg.get("max_partitions")))
         exp.shared_keys, exp.shared_prefixes = set(d["shared_keys"]), set(d["shared_prefixes"])
         ex = exp.execute(d["choices"])
         w.check(ex)
